@@ -232,7 +232,8 @@ def ops_strategy(third):
     bad_init = st.builds(lambda s_, k: ['inject', s_, 'peer', ('00' * 7 + '%02x' % (k + 1) + '00' * 8 + ['21', '28', '29', 'ff'][k % 4] + '20' + '22' + '08' +
                                                             '00000000' + '00000020' + ['00000004', '00000000', '21000005', '00800004'][k // 4 % 4])],
                          st.sampled_from(sides), st.integers(0, 15))
-    alts = [bad_init, trig, trig, acq, deliver, deliver, deliver, deliver, dup, old, drop, tick, hdr, hdr, status, xany, xany, xspi]
+    blackhole = st.builds(lambda n: ['auto', n, 1.0, 'blackhole'], st.sampled_from([8, 22, 30]))
+    alts = [bad_init, blackhole, trig, trig, acq, deliver, deliver, deliver, deliver, dup, old, drop, tick, hdr, hdr, status, xany, xany, xspi]
     if third:
         alts.append(acq_c)
         alts.append(acq_c)
